@@ -218,6 +218,17 @@ pub struct EioCase {
 }
 
 fn eio_case() -> impl Strategy<Value = EioCase> {
+	// one workload in four grows the index under the worker threads (C09's key sets)
+	prop_oneof![3 => eio_case_plain().boxed(), 1 => (eio_case_plain(), super::c09::scenario(14, 200)).prop_map(|(mut c, g)| {
+		let mut sc = g;
+		sc.ops.retain(|o| matches!(o, Op::Commit(_)));
+		sc.cfg.always_flush = true;
+		c.sc = sc;
+		c
+	}).boxed()]
+}
+
+fn eio_case_plain() -> impl Strategy<Value = EioCase> {
 	(mixed_cfg(2, false), prop_oneof![2 => 0u16..40, 3 => 40u16..400, 1 => 400u16..2000], proptest::collection::vec(prop_oneof![2 => Just(0u16), 2 => 1u16..500, 1 => 500u16..3000], 1..5), 0u8..3).prop_flat_map(
 		|(mut cfg, fail_after, pauses_us, af)| {
 			cfg.always_flush = af > 0;
